@@ -308,6 +308,8 @@ R_keysp == {<<k, v>> : k \in {S(97), Str(<<97, 32>>), Str(<<97, 33, 98>>), S(98)
 Q_C03key  == {[BaseQ EXCEPT !.items = <<E(Fa(1)), Agg("COUNT", <<"int", 1>>)>>, !.hasgroup = TRUE, !.group = <<Fa(1)>>],
               [BaseQ EXCEPT !.items = <<E(Fa(2)), E(Fa(1)), Agg("COUNT", <<"int", 1>>)>>, !.hasgroup = TRUE, !.group = <<Fa(2), Fa(1)>>]}
 Q_C03keys == {[BaseQ EXCEPT !.items = <<Agg("MAX", Fa(2)), Agg("COUNT", <<"int", 1>>)>>, !.hasgroup = TRUE, !.group = <<<<"num", Fa(1)>> >>]}
+\* numeric strings of different widths and signs: their text order differs from their numeric order (9 < 10 < 100, -5 < 9)
+R_numw == {<<k, v>> : k \in {S(97)}, v \in {D(57), Str(<<49, 48>>), Str(<<49, 48, 48>>), Str(<<45, 53>>)}}
 Q_C03med == {[BaseQ EXCEPT !.items = <<Agg(f, Fa(2)), E(Fa(1))>>, !.hasgroup = g # <<>>, !.group = g] :
                f \in {"MEDIAN", "VARIANCE", "AVG", "MIN", "SUM"}, g \in {<<>>, <<Fa(1)>>}}
 Q_C03bad == {[BaseQ EXCEPT !.items = << <<"aggplus", "MAX", Fa(2)>>, E(Fa(1))>>, !.hasgroup = TRUE, !.group = <<Fa(1)>>],
